@@ -8,7 +8,7 @@
     goroutine (a scratch buffer, a cache); the functional model of the operations has no place
     for it, so a new one must be reviewed (Model/Globals.v [reviewed_globals]) or the model extended. *)
 From Coq Require Import String List Arith.
-From GT Require Import Model.Globals Gen.Globals Proofs.Independence.
+From GT Require Import Model.Globals Gen.Globals Proofs.Independence Model.Narrow Gen.Narrow Proofs.Narrow.
 Import ListNotations.
 Local Open Scope string_scope.
 
@@ -17,6 +17,15 @@ Definition C14_packages : list string := ["tree"].
 Theorem C14_no_shared_state : unreviewed_shared C14_packages globals = [].
 Proof. vm_compute. reflexivity. Qed.
 Print Assumptions C14_no_shared_state.
+
+(** [narrow_sites] (Gen/Narrow.v, regenerated on every run): every place of the library packages where
+    a numeric type narrower than 64 bits is spelled out.  The models count with unbounded numbers;
+    a count kept in such a type wraps (Proofs/Narrow.v [count_w_wraps]) at sizes the theorems
+    cover, so every such place in the packages of this property is either in the reviewed table
+    (character data, colour components, flags: Model/Narrow.v) or an open obligation. *)
+Theorem C14_no_narrow_counters : unreviewed_narrow C14_packages narrow_sites = [].
+Proof. vm_compute. reflexivity. Qed.
+Print Assumptions C14_no_narrow_counters.
 
 (** what it buys: when no step reads or writes the shared store, every interleaving of calls made by
     different threads on their own data leaves the store alone and gives each thread the result of
